@@ -659,7 +659,15 @@ func runC11ReservedForIdentity(c *Ctx) {
 	n := 0
 	for _, b := range f.Blocks {
 		ret, ok := b.Instrs[len(b.Instrs)-1].(*ssa.Return)
-		if !ok || !insideLoopBody(b) {
+		if !ok {
+			continue
+		}
+		// an exit that does not add the reservation (whatever form the search takes: a loop, slices.ContainsFunc, …)
+		isAdd := func(in ssa.Instruction) bool {
+			st, isSt := in.(*ssa.Store)
+			return isSt && termOf(st.Addr).lastField() == "ReservedFor"
+		}
+		if _, _, unreserved := reachAvoiding([]cfgPos{entryPos(f)}, func(in ssa.Instruction) bool { return in == ssa.Instruction(ret) }, isAdd, nil); !unreserved {
 			continue
 		}
 		n++
